@@ -7,15 +7,21 @@ The rules of c04.py reason over three roles instead of one source shape:
      is Some — written as `filter_map(|(name, h)| find(h, version).map(|_| name))`, `filter(..).map(..)`, a `for`
      loop with an inner `if`, or a Vec collected/pushed from one of these;
  (b) the 404/405 decision: a test of emptiness of (a) — `any(..)`, `next().is_none()`, `peek()`, `is_empty()`,
-     `len()/count()` compared with 0, `if let Some(..) = it.next()`;
- (c) every Allow value: an element of (a).
+     `len()/count()` compared with 0, `if let Some(..) = it.next()`, or the outcome of ONE `fold(None, step)` over the
+     table whose Option<HttpError> accumulator is Some iff a served entry was seen (fold_accumulator: the 405 is built
+     lazily inside the step);
+ (c) every Allow value: an element of (a) (for the fold: the step's own entry, guarded inside the step).
+
+The function holding these roles is lookup_route or, when its body was split off into a helper the engine's inliner
+refuses (more than 120 blocks), the one function it hands the request to (routing_body / delegation_faithful).
 
 Everything here works on the normalised view (ctx.dsn): helpers introduced by a refactoring are already inlined into
 lookup_route, Option/Result combinators with closures are switches with the closure body spliced in; iterator adaptors
 are NOT desugared, their closures stay separate functions (children of lookup_route, also when they were written
 inside an inlined helper).
 
-Generic candidates for lib.py: `origin`, `canon_local`, `option_facts_at`.
+Generic candidates for lib.py: `origin`, `canon_local`, `option_facts_at`, `ctor_status` (replaces
+lib.status_const_of_ctor: reads the evaluated constant reaching the status_code field), `_value_defs`.
 """
 import json
 import re
@@ -146,6 +152,45 @@ def call_results_known_at(fn, site, callee_rx, transparent=OPTION_VIEW):
     return out
 
 
+def ctor_status(ds, ctor):
+    """Evaluated integer constants that reach the `status_code` field of the HttpError value built by constructor
+    `error::HttpError::<ctor>` — wherever the constant is declared (an associated constant of a status-code type, a
+    `const` item inside the function, a module-level const): a constant operand carries its evaluated value.  When the
+    constructor delegates to another HttpError constructor, the integer constants among that call's arguments.
+    -> set of ints, or None when the constructor does not exist."""
+    f = ds.one(r"^error::HttpError::%s$" % ctor)
+    if f is None:
+        return None
+    vals = set()
+
+    def ints(sl):
+        out = set()
+        for a in sl.atoms:
+            v = a[2] if a[0] == "const" else (a[1] if a[0] == "lit" else None)
+            if v and v != "null":
+                try:
+                    d = json.loads(v)
+                except ValueError:
+                    continue
+                if isinstance(d, dict) and isinstance(d.get("int"), int):
+                    out.add(d["int"])
+        return out
+    ret = f.slice({"l": 0, "p": []})
+    aggs = [st for bb, i, st in f.aggregates(r"^error::HttpError$", None) if bb in f.reachable(0)]
+    for st in aggs:
+        rv = st["rv"]
+        names = rv.get("fields") or []
+        if "status_code" in names and (st["pl"]["l"] == 0 or ret.touches_local(st["pl"]["l"])):
+            vals |= ints(f.slice(rv["ops"][names.index("status_code")]))
+    if not aggs:
+        for bb, t in f.live_calls(r"^error::HttpError::for_"):
+            if ("call", t["callee"], bb) in ret.atoms:
+                for a in t["args"]:
+                    if a.get("k") == "const" and re.search(r"StatusCode$", a.get("ty") or "") and const_int(a) is not None:
+                        vals.add(const_int(a))
+    return vals
+
+
 # --------------------------------------------------------------------------------------------- roles
 def version_param(lr):
     """lookup_route's API-version parameter, by type (`Option<&Version>`), name as a tie-break."""
@@ -225,20 +270,21 @@ def is_request_version(lr, g, op, vparam, agg=None):
     return True
 
 
-def _from_item_only(h, op):
-    """the value is a part of the closure's item parameter (projections / value plumbing only)"""
+def _from_item_only(h, op, item=2):
+    """the value is a part of the closure's item parameter (projections / value plumbing only); `item` is the
+    parameter's position (2 for map/filter/any/for_each callbacks, 3 for a fold step `|acc, item|`)"""
     sl = h.slice(op)
-    return sl.params() == [2] and not callee_allow(sl, VALUE_PLUMBING) and not any(a[0] in ("lit", "const") for a in sl.atoms)
+    return sl.params() == [item] and not callee_allow(sl, VALUE_PLUMBING) and not any(a[0] in ("lit", "const") for a in sl.atoms)
 
 
-def closure_find(lr, h, agg, vparam):
+def closure_find(lr, h, agg, vparam, item=2):
     """The closure's single `find_handler_matching_version(<handlers of the item>, <request version>)` call.
     -> (bb, why-not)."""
     fh = h.live_calls(FIND)
     if len(fh) != 1:
         return None, "the closure calls find_handler_matching_version %d times" % len(fh)
     hb, ht = fh[0]
-    if not _from_item_only(h, ht["args"][0]):
+    if not _from_item_only(h, ht["args"][0], item):
         return None, "the handler list tested is not the one of the closure's own item"
     if not is_request_version(lr, h, ht["args"][1], vparam, agg):
         return None, "the version tested is not lookup_route's version parameter"
@@ -492,6 +538,7 @@ class Test:
     out that way on every path reaching block `site`."""
     def __init__(self, idiom, ok, why, served, none_served, bb):
         self.idiom, self.ok, self.why, self.served, self.none_served, self.bb = idiom, ok, why, served, none_served, bb
+        self.fold = None    # the fold_accumulator record, for the "fold" idiom
 
 
 def _atom_is(lr, atom, value):
@@ -587,6 +634,17 @@ def decision_tests(lr, vparam):
                 atom = ("cmp", blk["bb"], i)
                 tests.append(Test("counted", col["ok"], "the number of served methods is compared with %d; %s" % (k, col["why"]),
                                   _atom_is(lr, atom, f(1)), _atom_is(lr, atom, f(0)), blk["bb"]))
+    # <iteration over node.methods>.fold(None, step): the Option accumulator is Some iff some entry is served at the version
+    for fbb, ft in lr.live_calls(FOLD):
+        rec = fold_accumulator(lr, fbb, ft, vparam)
+        if not rec["roots"]:
+            continue    # a fold over something else
+
+        def fknown(state, fbb=fbb):
+            return lambda site: any(b == fbb and s == state for b, t, s in call_results_known_at(lr, site, FOLD))
+        T = Test("fold", rec["ok"], "the outcome of a fold over the node's method table decides; " + rec["why"], fknown("Some"), fknown("None"), fbb)
+        T.fold = rec
+        tests.append(T)
     return tests
 
 
@@ -635,3 +693,201 @@ def element_origin(lr, it_op, vparam):
     if base is not None:
         return "table", base
     return "other", None
+
+
+# --------------------------------------------------------------------------------------------- the 405 constructor
+C405 = r"^error::HttpError::for_client_error"
+FOLD = r"iter::Iterator::fold$"
+ADD_HEADER = r"^error::HttpError::add_header$"
+
+
+def is_405_ctor(t):
+    return bool(re.search(C405, t.get("callee") or "")) and any(const_int(a) == 405 for a in t["args"])
+
+
+def c405_sites(facts, lr):
+    """Every live construction of a 405 error in lookup_route or in a closure defined in it: [(fn, bb, term)]."""
+    out = []
+    for g in [lr] + facts.descendants(lr):
+        for bb, t in g.live_calls(C405):
+            if is_405_ctor(t):
+                out.append((g, bb, t))
+    return out
+
+
+# --------------------------------------------------------------------------------------------- delegation
+def routing_body(facts, lr, depth=3):
+    """The function that holds the routing decision — it reads a node's method table / calls
+    find_handler_matching_version: lookup_route itself, or the crate-local function lookup_route hands the request to
+    when the body was split off into a helper too large for the engine's inliner.
+    -> (body, [(caller, bb, term, callee Fn)] delegation chain, why-not)."""
+    cur, chain = lr, []
+    for _ in range(depth):
+        if cur.live_calls(FIND) or methods_reads(cur):
+            return cur, chain, ""
+        cands = []
+        for bb, t in cur.live_calls():
+            g = facts.F.get(t.get("resolved") or "\0") or facts.F.get(t.get("callee") or "\0")
+            if g is None or g is cur or g.raw["kind"] == "Closure":
+                continue
+            if g.live_calls(FIND) or methods_reads(g) or any(facts.F[x].live_calls(FIND) for x in facts.region([g.id]) if x in facts.F):
+                cands.append((bb, t, g))
+        if len(cands) != 1:
+            return None, chain, "%s neither consults a node's method table nor hands the request to exactly one function that does (%d candidates)" % (cur.id, len(cands))
+        bb, t, g = cands[0]
+        chain.append((cur, bb, t, g))
+        cur = g
+    return None, chain, "the delegation chain from lookup_route is deeper than %d" % depth
+
+
+def delegation_faithful(cur, bb, t, g):
+    """The hand-over `g(.., version, ..)` in `cur` passes cur's version parameter unmodified to g's version parameter and
+    cur returns g's result as its own (no other error is built after the call).  -> (ok, why)."""
+    vp_cur, vp_g = version_param(cur), version_param(g)
+    if vp_g - 1 >= len(t["args"]):
+        return False, "the callee's version parameter has no argument"
+    if not is_request_version(cur, cur, t["args"][vp_g - 1], vp_cur):
+        return False, "the version handed to %s is not %s's own version parameter" % (g.id, cur.id)
+    ret = cur.slice({"l": 0, "p": []})
+    if not (t["dest"]["l"] == 0 and not t["dest"]["p"]) and ("call", t["callee"], bb) not in ret.atoms:
+        return False, "the result of %s is not what %s returns" % (g.id, cur.id)
+    later = [b for b, t2 in cur.live_calls(r"^error::HttpError::") if b in cur.reachable(bb) and b != bb]
+    if later:
+        return False, "%s builds another error after %s returned" % (cur.id, g.id)
+    return True, "%s hands method, segments and its version parameter to %s and returns its result" % (cur.id, g.id)
+
+
+# --------------------------------------------------------------------------------------------- the fold idiom
+def _value_defs(h, l, depth=0):
+    """Terminal whole-value definitions of local l, looking through plain moves of locals:
+    [([blocks of the moves.., block of the definition], kind, node)] with kind in param|assign|call."""
+    out = []
+    for bb, kind, node in h.defs().get(l, []):
+        if kind == "assign" and not node["pl"]["p"] and node["rv"]["rv"] == "use" and operand_local(node["rv"]["op"]) is not None and depth < 6:
+            src = operand_local(node["rv"]["op"])
+            if 1 <= src <= h.argc:
+                out.append(([bb], "param", src))
+            else:
+                inner = _value_defs(h, src, depth + 1)
+                if not inner:
+                    out.append(([bb], "unknown", node))
+                for bbs, k, n in inner:
+                    out.append(([bb] + bbs, k, n))
+        else:
+            out.append(([bb], kind, node))
+    return out
+
+
+def _acc_state(h, site, acc=2):
+    """Variant of the fold step's accumulator parameter known on every path to block `site`: Some | None | None."""
+    for op, state in option_facts_at(h, site):
+        o = origin(h, op, OPTION_VIEW)
+        if o["kind"] == "local" and o["l"] == acc:
+            return state
+    return None
+
+
+def fold_accumulator(lr, fbb, ft, vparam):
+    """`<iteration over node.methods>.fold(None, |acc, (name, handlers)| ..)` with an Option<HttpError> accumulator that is
+    Some exactly when some entry seen so far is served at the request's version:
+      * the initial accumulator is None;
+      * the step tests find_handler_matching_version(<its item's handlers>, <request version>) once;
+      * where that is None the step returns its accumulator parameter unchanged, where it is Some the step returns
+        Some(e) with e the accumulated error or a 405 built right there (and nowhere else: only for a served item,
+        only while the accumulator is None); the step never returns anything else (no reset to None);
+    `adds` lists the step's add_header(ALLOW, v) calls with: v is the item's own key, the call is reached only where the
+    find result is Some, the receiver is the error carried in the accumulator / the fresh 405."""
+    from .lib_c01 import sources
+    rec = {"ok": False, "why": "", "bb": fbb, "t": ft, "h": None, "roots": set(), "adds": [], "c405": []}
+    base = methods_iteration(lr, ft["args"][0])
+    if base is None:
+        rec["why"] = "fold is not applied to an iteration over the node's method table"
+        return rec
+    rec["roots"] = base["roots"]
+    if base["kind"] != "iter":
+        rec["why"] = "the fold does not run over the (name, handlers) entries of the node's method table"
+        return rec
+    cls = closure_args_of_call(lr, ft)
+    if len(cls) != 1 or cls[0][0].argc != 3:
+        rec["why"] = "fold's step is not a closure `|acc, item|` defined here"
+        return rec
+    h, agg = cls[0]
+    rec["h"] = h
+    o = origin(lr, ft["args"][1])
+    init = o.get("def", {}).get("rv", {}) if o["kind"] == "local" else {}
+    if not (init.get("rv") == "agg" and init.get("adt") == "std::option::Option" and init.get("variant") == "None"):
+        rec["why"] = "the fold's initial accumulator is not None"
+        return rec
+    fb, why = closure_find(lr, h, agg, vparam, item=3)
+    if fb is None:
+        rec["why"] = why
+        return rec
+
+    def carried(op):
+        """the operand is the accumulated error `(acc as Some).0` or a 405 built in this step; -> (ok, ctor blocks)"""
+        ctors = set()
+        srcs = sources(h, op)
+        for p in srcs:
+            if p.kind() == "param" and p.root[1] == 2 and p.path == ["as Some", "0"]:
+                continue
+            if p.kind() == "call" and not p.path and is_405_ctor(p.root[4]):
+                ctors.add(p.root[3])
+                continue
+            return False, ctors
+        return bool(srcs), ctors
+    defs = _value_defs(h, 0)
+    if not defs:
+        rec["why"] = "the step's result has no recognisable definition"
+        return rec
+    n_some = 0
+    for bbs, kind, node in defs:
+        states = set(_find_state(h, fb, b) for b in bbs)
+        if kind == "param":
+            if node != 2:
+                rec["why"] = "the step returns something other than its accumulator"
+                return rec
+            if "None" not in states:
+                rec["why"] = "the accumulator is handed on unchanged where find_handler_matching_version(item's handlers, request version) is not known to be None"
+                return rec
+            continue
+        rv = node.get("rv", {}) if kind == "assign" else {}
+        if rv.get("rv") == "agg" and rv.get("adt") == "std::option::Option" and rv.get("variant") == "Some":
+            if "Some" not in states:
+                rec["why"] = "the accumulator becomes Some where find_handler_matching_version(item's handlers, request version) is not known to be Some"
+                return rec
+            ok, ctors = carried(rv["ops"][0])
+            if not ok:
+                rec["why"] = "the error carried in the accumulator is neither the one accumulated so far nor a 405 built in this step"
+                return rec
+            n_some += 1
+            continue
+        if rv.get("rv") == "agg" and rv.get("adt") == "std::option::Option" and rv.get("variant") == "None":
+            rec["why"] = "the step resets the accumulator to None"
+            return rec
+        rec["why"] = "the step's result is not its accumulator or Some(error)"
+        return rec
+    if not n_some:
+        rec["why"] = "the step never yields Some"
+        return rec
+    for bb, t in h.live_calls(C405):
+        if not is_405_ctor(t):
+            continue
+        rec["c405"].append((bb, t))
+        if _find_state(h, fb, bb) != "Some":
+            rec["why"] = "the 405 is built where find_handler_matching_version(item's handlers, request version) is not known to be Some"
+            return rec
+        if _acc_state(h, bb) != "None":
+            rec["why"] = "a 405 is built in a step whose accumulator is not known to be None (it would drop the Allow values collected so far)"
+            return rec
+    for bb, t in h.live_calls(ADD_HEADER):
+        sl = h.slice(t["args"][1])
+        if not (sl.has_const_path(r"header::ALLOW$") or any(a[0] == "const" and "ALLOW" in a[1] for a in sl.atoms)):
+            continue
+        root = borrow_root(h, t["args"][0])
+        recv_ok = root is not None and carried({"k": "copy", "pl": {"l": root, "p": []}})[0]
+        rec["adds"].append({"bb": bb, "t": t, "value_ok": _from_item_only(h, t["args"][2], item=3),
+                            "guarded": _find_state(h, fb, bb) == "Some", "recv_ok": recv_ok})
+    rec["ok"] = True
+    rec["why"] = ("fold over the node's method table with an Option accumulator that starts None, is handed on unchanged for entries not served at the request's "
+                  "version and becomes / stays Some(405 error) for entries that are")
+    return rec
